@@ -25,7 +25,8 @@ HOSTILE = st.one_of(
     st.text(max_size=8),
     st.text(st.sampled_from("a\x00\x1b\r\n\t'\"\\é́中\U0001f600\ud800\udfff'''\"\"\""), max_size=10))
 BYTES = st.one_of(st.binary(max_size=5), st.lists(st.sampled_from([b"a", b"b", b"\xff", b"\n", b"'", b"\\", b"\xc3\xa9"]), max_size=5).map(b"".join))
-LIST = st.lists(st.integers(0, 3), max_size=4)
+LIST = st.one_of(st.lists(st.integers(0, 3), max_size=4), st.lists(st.integers(0, 3), max_size=4),
+                st.lists(st.integers(0, 5), min_size=4, max_size=6))
 DICT = st.dictionaries(st.sampled_from(["a", "b", "c", "d"]), st.integers(0, 3), max_size=4)
 OBJ = st.fixed_dictionaries({"a": st.integers(0, 3), "b": st.integers(0, 3)})
 EXC_NAMES = ["ValueError", "KeyError", "RuntimeError", "LookupError", "ZeroDivisionError", "CustomError"]
@@ -85,6 +86,33 @@ def divisible_by(x, k):
     return k != 0 and x % k == 0
 
 
+def between(x, lo, hi=None):
+    return lo <= x <= hi
+
+
+def remainder_is_zero_ish(x, k):
+    """Truthy (an int remainder, or a non-empty list) when x is NOT a multiple of k: never a bool."""
+    if k == 0:
+        return ["no multiples of zero"]
+    return x % k
+
+
+class IsSameObject:
+    """Is(<the matchee itself>) or Is(<an equal copy of the matchee>): built at match time, because the
+    reference object has to be the live value."""
+
+    def __init__(self, same):
+        self.same = same
+
+    def __str__(self):
+        return "IsSameObject(%r)" % self.same
+
+    def match(self, value):
+        import copy
+        import testtools.matchers as tm
+        return tm.Is(value if self.same else copy.copy(value)).match(value)
+
+
 class Env:
     """Per-case scratch directory for the filesystem domain."""
 
@@ -127,6 +155,17 @@ class Env:
                     info.size = len(data)
                     t.addfile(info, io.BytesIO(data))
 
+    def repopulate(self, fs):
+        """Replace the contents of the scratch directory by those of another spec (same paths, other contents)."""
+        for n in os.listdir(self.root):
+            q = os.path.join(self.root, n)
+            if os.path.isdir(q) and not os.path.islink(q):
+                shutil.rmtree(q)
+            else:
+                os.unlink(q)
+        self.fs = fs
+        self.populate()
+
     def __exit__(self, *a):
         if self.root:
             shutil.rmtree(self.root, ignore_errors=True)
@@ -155,6 +194,11 @@ def live_value(domain, v, env):
         return warnings.WarningMessage(message=WARN_CLASSES[v["cat"]](v["msg"]), category=WARN_CLASSES[v["cat"]],
                                        filename="somefile.py", lineno=v["lineno"], line=None)
     if domain == "list":
+        flavour = getattr(env, "list_flavour", "list") if env is not None else "list"
+        if flavour == "tuple":
+            return tuple(v)
+        if flavour == "iter":
+            return iter(list(v))         # a one-shot iterator
         return list(v)
     if domain == "dict":
         flavour = getattr(env, "dict_flavour", "dict") if env is not None else "dict"
@@ -190,7 +234,7 @@ def leaf(domain):
         gen += [st.builds(lambda k, n: M(n, "int", k=k), st.integers(-1, 4), st.sampled_from(["Equals", "NotEquals", "LessThan", "GreaterThan"])),
                 st.builds(lambda t: M("IsInstance", "int", types=t), st.sampled_from([["int"], ["str"], ["str", "int"], ["bool"]])),
                 st.builds(lambda: M("MatchesPredicate", "int")),
-                st.builds(lambda k: M("MatchesPredicateWithParams", "int", k=k), st.integers(0, 3)),
+                st.builds(lambda k, form: M("MatchesPredicateWithParams", "int", k=k, form=form), st.integers(0, 3), st.sampled_from(["pos", "kw", "two", "truthy"])),
                 st.builds(lambda: M("IsNone", "int"))]
     elif domain == "str":
         gen += [st.builds(lambda s, n: M(n, "str", s=s), STR, st.sampled_from(["Equals", "StartsWith", "EndsWith", "Contains", "NotEquals"])),
@@ -204,6 +248,7 @@ def leaf(domain):
     elif domain == "list":
         gen += [st.builds(lambda l, n: M(n, "list", l=l), LIST, st.sampled_from(["Equals", "SameMembers", "ContainsAll"])),
                 st.builds(lambda k: M("Contains", "list", k=k), st.integers(0, 3)),
+                st.builds(lambda same: M("Is", "list", same=same), st.booleans()),
                 st.builds(lambda n: M("HasLength", "list", n=n), st.integers(0, 4))]
     elif domain == "dict":
         gen += [st.builds(lambda d: M("Equals", "dict", v=d), DICT),
@@ -257,6 +302,9 @@ def tree(domain, depth):
         gen += [st.builds(lambda m, n: M(n, "list", inner=m), i, st.sampled_from(["AllMatch", "AnyMatch"])),
                 st.builds(lambda ms, fo: M("MatchesListwise", "list", inner=ms, first_only=fo), st.lists(i, max_size=4), st.booleans()),
                 st.builds(lambda ms, sh: M("MatchesSetwise", "list", inner=ms, share=sh), st.lists(i, max_size=4), st.booleans()),
+                # longer chains: LessThan(1..n) in a drawn order needs augmenting paths of length up to n
+                st.builds(lambda ks: M("MatchesSetwise", "list", inner=[M("LessThan", "int", k=k) for k in ks], share=False),
+                          st.permutations([1, 2, 3, 4, 5, 6]).flatmap(lambda p: st.integers(4, 6).map(lambda n: list(p)[:n]))),
                 st.builds(lambda f, m, an: M("AfterPreprocessing", "list", fn=f, inner=m, annotate=an), st.sampled_from(["len", "sum"]), i, st.booleans()),
                 st.builds(lambda m, an: M("AfterPreprocessing", "list", fn="sorted", inner=m, annotate=an), sub, st.booleans())]
     if domain == "dict":
@@ -343,7 +391,18 @@ def build(spec, env):
     if m == "MatchesPredicate":
         return tm.MatchesPredicate(is_even, "%s is not even")
     if m == "MatchesPredicateWithParams":
+        form = spec.get("form", "pos")
+        if form == "kw":
+            return tm.MatchesPredicateWithParams(divisible_by, "{0} is not divisible by {k}")(k=spec["k"])
+        if form == "two":
+            return tm.MatchesPredicateWithParams(between, "{0} is not between {1} and {hi}", "Between")(spec["k"] - 1, hi=spec["k"] + 1)
+        if form == "truthy":
+            # "the result of the function will be interpreted as a boolean": a remainder, not a bool
+            return tm.MatchesPredicateWithParams(remainder_is_zero_ish, "{0} leaves a remainder mod {1}")(spec["k"])
         return tm.MatchesPredicateWithParams(divisible_by, "{0} is not divisible by {1}")(spec["k"])
+    if m == "Is":
+        # identity, not equality: the very object, or an equal copy of it
+        return IsSameObject(spec["same"])
     if m in ("StartsWith", "EndsWith"):
         return getattr(tm, m)(spec["s"])
     if m == "Contains":
@@ -584,7 +643,14 @@ def _ref(spec, v, env=None):
     if m == "MatchesPredicate":
         return v % 2 == 0
     if m == "MatchesPredicateWithParams":
+        form = spec.get("form", "pos")
+        if form == "two":
+            return spec["k"] - 1 <= v <= spec["k"] + 1
+        if form == "truthy":
+            return spec["k"] == 0 or v % spec["k"] != 0
         return spec["k"] != 0 and v % spec["k"] == 0
+    if m == "Is":
+        return bool(spec["same"])
     if m == "StartsWith":
         return v[:len(spec["s"])] == spec["s"]
     if m == "EndsWith":
@@ -726,6 +792,23 @@ def _ref(spec, v, env=None):
             raise Propagates("not-a-tarball")
         return sorted(fs["tar_a"]) == sorted(spec["paths"])
     raise AssertionError("no reference for %r" % (spec,))
+
+
+def has_node(spec, pred):
+    """Does some node of the matcher tree satisfy ``pred``?"""
+    if pred(spec):
+        return True
+    for val in spec.values():
+        kids = []
+        if isinstance(val, dict) and "m" in val:
+            kids = [val]
+        elif isinstance(val, list):
+            kids = [x for x in val if isinstance(x, dict) and "m" in x]
+        elif isinstance(val, dict):
+            kids = [x for x in val.values() if isinstance(x, dict) and "m" in x]
+        if any(has_node(k, pred) for k in kids):
+            return True
+    return False
 
 
 def uses_domain(spec, name):
